@@ -27,6 +27,7 @@ def dispatch (line : String) : String :=
   match splitTabs line with
   | "iter" :: rest => (handleIter rest).getD "BAD-CASE\t0"
   | "itercount" :: rest => (handleIterCount rest).getD "BAD-CASE\t0"
+  | "iterpass" :: rest => (handleIterPass rest).getD "BAD-CASE\t0"
   | "iterstep" :: rest => (handleIterStep rest).getD "BAD-CASE\t0"
   | "recvpause" :: rest => (handleRecvPause rest).getD "BAD-CASE\t0"
   | "recv" :: rest => (handleRecv rest).getD "BAD-CASE\t0"
